@@ -5,6 +5,7 @@ from vlib import *
 from frame_lib import *
 
 PROPS = "Props/C40"
+FAMILY = "frame"
 GO = GoSide()
 
 U64 = (1 << 64) - 1
@@ -51,7 +52,7 @@ def rstr(rng, long_ok=True):
         n = 0
     elif r < 0.7:
         n = rng.randrange(1, 20)
-    elif r < 0.9 or not long_ok:
+    elif r < 0.97 or not long_ok:
         n = rng.choice([252, 253, 254, 255, 256, 257, 300])
     else:
         n = rng.choice([1000, 65535, 65536, 70000])
@@ -196,7 +197,7 @@ def rbody(rng, forbidden, minlen=4):
         r = rng.random()
         if r < 0.5:
             n = rng.randrange(minlen, 40)
-        elif r < 0.9:
+        elif r < 0.985:
             n = rng.randrange(40, 400)
         else:
             n = rng.choice([1000, 4096, 70000])
